@@ -486,7 +486,7 @@ func init() {
 		Run:            c20Run,
 		Replay:         c20Replay,
 		QuickBudget:    5 * time.Minute,
-		ThoroughBudget: 20 * time.Minute,
+		ThoroughBudget: 60 * time.Minute,
 		Workers:        16,
 	})
 }
